@@ -99,6 +99,29 @@ package compress
 //@   loop 0: invariant [registered] forall j int :: 0 <= j && j <= $idx ==> cs.m.dom[box(opts[j].Name)] && fresh(unbox(cs.m.vals[box(opts[j].Name)], "*compressSrv"))
 //@   loop 0: invariant [kept] forall k any :: old(cs.m.dom[k]) ==> cs.m.dom[k]
 
+// the compress options built from the configuration: names copied, every configured level copied
+//@ func convertConfigs(configs []config.CompressConfig) (opts []CompressOption)
+//@   nopanic
+//@   modifies nothing
+//@   ensures [len] len(opts) == len(configs)
+//@   ensures [names] forall i int :: 0 <= i && i < len(configs) ==> opts[i].Name == configs[i].Name
+//@   ensures [levels] forall i int, e string :: 0 <= i && i < len(configs) ==> (has(opts[i].Levels, e) <==> has(configs[i].Levels, e)) && (has(configs[i].Levels, e) ==> opts[i].Levels[e] == int(configs[i].Levels[e]))
+//@   loop 0: modifies nothing
+//@   loop 0: invariant [idx] -1 <= $idx && $idx < len(configs) && len(opts) == $idx + 1 && fresh(opts)
+//@   loop 0: invariant [names] forall i int :: 0 <= i && i <= $idx ==> opts[i].Name == configs[i].Name && fresh(opts[i].Levels)
+//@   loop 0: invariant [levels] forall i int, e string :: 0 <= i && i <= $idx ==> (has(opts[i].Levels, e) <==> has(configs[i].Levels, e)) && (has(configs[i].Levels, e) ==> opts[i].Levels[e] == int(configs[i].Levels[e]))
+//@   loop 1: modifies nothing
+//@   loop 1: invariant [pos] 0 <= $mi && $mi <= $mn && fresh(levels)
+//@   loop 1: invariant [copied] forall e string :: (has(levels, e) <==> (has(item.Levels, e) && $midx[e] < $mi)) && (has(levels, e) ==> levels[e] == int(item.Levels[e]))
+//@   loop 1: invariant [outer] -1 <= $idx0 && $idx0 < len(configs) && len(opts) == $idx0 + 1 && fresh(opts)
+//@   loop 1: invariant [outer-names] forall i int :: 0 <= i && i <= $idx0 ==> opts[i].Name == configs[i].Name && fresh(opts[i].Levels) && opts[i].Levels != levels
+//@   loop 1: invariant [outer-levels] forall i int, e string :: 0 <= i && i <= $idx0 ==> (has(opts[i].Levels, e) <==> has(configs[i].Levels, e)) && (has(configs[i].Levels, e) ==> opts[i].Levels[e] == int(configs[i].Levels[e]))
+
+// applying the compress section of a configuration: every configured profile is registered
+//@ func Reset(configs []config.CompressConfig)
+//@   modifies defaultCompressSrvList.m.dom, defaultCompressSrvList.m.vals, atomic.Int32::v
+//@   ensures [registered] forall j int :: 0 <= j && j < len(configs) ==> defaultCompressSrvList.m.dom[box(configs[j].Name)]
+
 // ---- decoders (compress.go) ---------------------------------------------------------------
 
 //@ spec func lz4Dec(b Bytes) Bytes
